@@ -1,9 +1,8 @@
 """C02 — no look-ahead; inputs intact; reruns reproduce (real Actuator runs on pairs of histories that share a prefix)."""
 from __future__ import annotations
 
-import copy
+import decimal
 import hashlib
-import math
 import traceback
 from decimal import Decimal
 
@@ -13,21 +12,30 @@ from common import Ctx, driver_json
 import core_lib as cl
 
 PROPERTY = "C02"
-LEAN_MODULES = ["Proofs.C02"]
+LEAN_MODULES = ["Proofs.C02", "Proofs.C02.Rerun"]
 DRIVERS = ["driver_core"]
 RULE = ("pairs of random histories sharing a prefix of k bars (k random, suffixes of different length and content) x market mix {probe market with "
-        "data-dependent value, two probe markets minutely+hourly, real UniLpMarket, Uni+Aave, Uni+Deribit(hourly order books)} x bar interval "
-        "{1min, 5min, 1h} x adaptive scripted strategies whose decisions depend on the snapshot; every run is also repeated on the same frames and the "
-        "frames are hashed before/after; bucket = (market mix, interval, prefix class, what the strategy did, outcome)")
+        "data-dependent value, two probe markets minutely+hourly, real UniLpMarket, Uni+Aave, Uni+Deribit (hourly order books), Deribit alone (prices "
+        "from the option data), GMX v1, Squeeth + its oSQTH pool} x bar interval {1min, 5min, 1h} x price frame {cells Decimal / float / int / mixed, "
+        "given as frame / series / (frame, token) tuple, with or without a watched column whose feed starts late: NaN through the common prefix, "
+        "ending inside it or beyond it} x option rows of an hour listed sorted / far expiry first / shuffled x adaptive scripted strategies whose "
+        "decisions depend on the snapshot and which own stateful triggers of every class (two installed at construction, three by initialize()). "
+        "Per pair: history 1, then the SAME strategy object on the SAME frames with a fresh Actuator/Broker/markets (same process), then history 2. "
+        "Every supplied frame is hashed when built, after set_price / data hand-over and after the run (column set and order, dtypes, index incl. row "
+        "order, every cell with its Python type, nested lists); the process-wide Decimal context is compared before/after each run; bucket = "
+        "(market mix, interval, price cells/form, late-feed class, row order, prefix class, what the strategy did, triggers fired, outcome)")
 TRUSTED = ["in-place mutation of the supplied pandas frames and rerun equality are decided by measurement only (sha1 of a canonical dump incl. nested "
-           "order-book lists, before vs after; second run on the same frames) — a pure model cannot exhibit aliasing",
+           "order-book lists, at construction vs after hand-over vs after the run; second run of the same strategy object on the same frames) — a pure "
+           "model cannot exhibit aliasing; the trigger part of the rerun clause is also a theorem (Proofs/C02/Rerun.lean)",
            "that the implementation's lookups are the model's views is tied by the two-suffix runs and by comparing the views with the real helpers "
            "(_add_statistic_column price column, SqueethMarket.get_twap_price window, DeribitOptionMarket.set_market_status hourly row)"]
 ASSUMPTIONS = ["the strategy reads the data only through the snapshots it is handed (a strategy may read self.data ahead of time; that is outside the property)",
-               "a fresh account = new Actuator/Broker/Market objects over the same frames"]
+               "a fresh account = new Actuator/Broker/Market objects over the same frames; the strategy object may be the same one",
+               "supplied frames have a non-decreasing, duplicate-free time index (rows within one timestamp of a multi-row book may come in any order)"]
 
-KINDS = ("probe", "probe", "probe2", "uni", "uni", "uni+aave", "uni+deribit")
-LIGHT = ("probe", "probe", "probe2", "uni", "uni", "uni+aave")
+KINDS = ("probe", "probe", "probe2", "uni", "uni", "uni+aave", "uni+deribit", "deribit", "gmx", "squeeth")
+LIGHT = ("probe", "probe", "probe2", "uni", "uni", "uni+aave", "deribit", "gmx", "squeeth")
+HOURLY = ("uni+deribit", "deribit")
 
 
 # ------------------------------------------------------------------------------------------ histories
@@ -49,9 +57,10 @@ def gen_bars(rng, n, tick0):
 
 def gen_pair(rng, kind=None, small=False):
     kind = kind or rng.choice(KINDS)
-    interval = rng.choice((1, 1, 1, 5, 60)) if kind != "uni+deribit" else rng.choice((1, 1, 60))
-    unit = interval if kind != "uni+deribit" else 60
-    nb = rng.randint(2, 40) if unit == 1 else rng.randint(2, 8) if unit == 5 else rng.randint(2, 2 if small else 4)
+    interval = (rng.choice((1, 1, 60)) if kind == "uni+deribit" else 60 if kind == "deribit" else rng.choice((1, 1, 5)) if kind in ("gmx", "squeeth")
+                else rng.choice((1, 1, 1, 5, 5, 60)))
+    unit = interval if kind not in HOURLY else 60
+    nb = rng.randint(2, 40) if unit == 1 else rng.randint(2, 8) if unit == 5 else rng.randint(2, 2 if small else 4 if kind != "deribit" else 6)
     k_units = rng.randint(1, nb)                                    # the common prefix, in complete bins
     start = 3600 * rng.randint(0, 12)
     tick0 = 201000 + rng.randint(-300, 300)
@@ -60,60 +69,190 @@ def gen_pair(rng, kind=None, small=False):
     last = pre[-1]["close"]
     s1 = gen_bars(rng, rng.randint(0, nb - k_units + 2) * unit + (rng.randint(0, unit - 1) if unit > 1 else 0), last)
     s2 = gen_bars(rng, rng.randint(1, nb - k_units + 3) * unit, last + rng.randint(-400, 400))
-    return {"kind": kind, "interval": interval, "start": start, "k": k_units * unit, "pre": pre, "s1": s1, "s2": s2, "seed": rng.randint(0, 10 ** 9)}
+    case = {"kind": kind, "interval": interval, "start": start, "k": k_units * unit, "pre": pre, "s1": s1, "s2": s2, "seed": rng.randint(0, 10 ** 9)}
+    # what the cells of the supplied price frame hold and how set_price is given it
+    if kind.startswith("probe"):
+        case["price_kind"], case["form"], case["aux"] = rng.choice(PRICE_KINDS), rng.choice(FORMS), rng.random() < 0.6
+    else:
+        case["price_kind"], case["form"] = rng.choice(("native", "native", "decimal")), rng.choice(("tuple", "tuple", "frame"))
+    # a watched price column whose feed starts late: no quote for the first `late` minutes (NaN cells); the feed may start inside the common
+    # prefix, exactly at its end, or only in the part that differs between the two histories
+    if kind not in ("deribit",) and rng.random() < 0.6:
+        k = case["k"]
+        case["late"] = rng.choice((k, k, k + rng.randint(1, 2 * unit), max(1, k - rng.randint(1, unit)), rng.randint(1, max(1, k))))
+    # the order in which the rows of one hour of an option book are listed (the (time, instrument) index is not sorted unless "sorted")
+    if kind in HOURLY:
+        case["row_order"] = rng.choice(("sorted", "far-first", "far-first", "shuffled"))
+    return case
 
 
-# ------------------------------------------------------------------------------------------ building a run
+# ------------------------------------------------------------------------------------------ inputs, hashed as supplied
+def cell(v) -> str:
+    return type(v).__name__ + ":" + repr(v)
+
+
 def digest(x) -> str:
-    """canonical text of a frame / series (nested lists included), independent of object identity"""
+    """canonical text of a frame / series: the column labels in order, the dtype of every column, the index (dtype, names, labels) and every
+    cell together with the Python type it holds (Decimal('1'), 1 and 1.0 are three different cells; nested order-book lists go in by repr).
+    Independent of object identity; an added or dropped column, a converted cell and a changed dtype all change it."""
     if isinstance(x, pd.DataFrame):
-        body = x.to_csv() + "|" + ",".join(map(str, x.dtypes)) + "|" + str(x.index.dtype)
+        parts = ["columns=" + repr([repr(c) for c in x.columns]), "dtypes=" + repr([str(t) for t in x.dtypes]),
+                 "index=" + str(x.index.dtype) + repr(list(x.index.names)) + repr([repr(i) for i in x.index.tolist()])]
+        for j in range(x.shape[1]):
+            parts.append("|".join(cell(v) for v in x.iloc[:, j].tolist()))
+        body = "\n".join(parts)
     elif isinstance(x, pd.Series):
-        body = x.to_csv() + "|" + str(x.dtype)
+        body = str(x.dtype) + repr(x.name) + repr([repr(i) for i in x.index.tolist()]) + "|".join(cell(v) for v in x.tolist())
     else:
         body = repr(x)
     return hashlib.sha1(body.encode()).hexdigest()
 
 
-def build(case, bars):
-    """fresh Actuator over fresh market objects and freshly built frames for the history `bars`; returns everything observable"""
+def shape_of(x) -> str:
+    """what a mutated frame looks like, for the report"""
+    if isinstance(x, pd.DataFrame):
+        return f"columns {list(map(str, x.columns))} dtypes {[str(t) for t in x.dtypes]} first row {[cell(v) for v in x.iloc[0].tolist()] if len(x) else []}"
+    if isinstance(x, pd.Series):
+        return f"series {x.name} dtype {x.dtype} first {cell(x.iloc[0]) if len(x) else None}"
+    return repr(x)[:100]
+
+
+PRICE_KINDS = ("decimal", "decimal", "float", "int", "mixed-d", "mixed-f")     # what the cells of the supplied price frame hold
+FORMS = ("frame", "frame", "series", "tuple")                                      # how set_price is given it
+
+
+def price_column(kind, vals):
+    """vals: exact Decimal prices; the column as the caller might hold it"""
+    if kind in ("decimal", "native"):
+        return pd.Series(list(vals), dtype=object)
+    if kind == "float":
+        return pd.Series([float(v) for v in vals], dtype="float64")
+    if kind == "int":
+        return pd.Series([int(v * 1000) for v in vals], dtype="int64")
+    first_dec = kind == "mixed-d"
+    return pd.Series([(v if (i == 0) == first_dec else float(v)) for i, v in enumerate(vals)], dtype=object)
+
+
+def with_late_feed(col, late):
+    """the first `late` cells hold no quote"""
+    if not late:
+        return col
+    vals = col.tolist()
+    out = pd.Series([float("nan") if i < late else v for i, v in enumerate(vals)], dtype=object if col.dtype == object else "float64")
+    return out
+
+
+def book_rows(case, bars, times, start):
+    """one hour of an option book per whole hour: three instruments quoting different underlying (futures) prices, listed in the case's row order"""
+    import random
+    rows = []
+    order = case.get("row_order", "sorted")
+    shuffle = random.Random(case["seed"] + 5)
+    inst = [("ETH-X-1700-C", 1700, 3, 0), ("ETH-X-1900-C", 1900, 3, 1), ("ETH-Y-1800-C", 1800, 10, 2)]     # name, strike, expiry in days, j
+    for i, t in enumerate(times):
+        if t % 3600 == 0:
+            b = bars[i]
+            hour = []
+            for name, strike, days, j in inst:
+                hour.append({"time": cl.at(t), "instrument_name": name, "state": "open", "type": "CALL", "strike_price": strike,
+                             "expiry_time": cl.at(start - start % 86400 + 86400 * days), "gamma": 0.001, "delta": 0.5,
+                             "underlying_price": float(b["S"] + 10 * j), "mark_price": b["ask"] * 0.0005,
+                             "asks": [[(b["ask"] + 1 + j) * 0.0005, b["asz"]], [(b["ask"] + 2 + j) * 0.0005, b["asz"] + 7]],
+                             "bids": [[max(1, b["ask"] - 1) * 0.0005, b["asz"]]]})
+            if order == "far-first":
+                hour.reverse()
+            elif order == "shuffled":
+                shuffle.shuffle(hour)
+            rows += hour
+    if not rows:
+        return None
+    df = pd.DataFrame(rows).set_index(["time", "instrument_name"])
+    return df.sort_index() if order == "sorted" else df
+
+
+def make_inputs(case, bars):
+    """every frame the caller supplies for the history `bars`, built once; `pristine` = their digests before demeter has seen them"""
     cl.setup()
-    from demeter import Actuator, MarketInfo, TokenInfo, Strategy, MarketTypeEnum
+    from demeter import MarketInfo, TokenInfo
     kind, start, n = case["kind"], case["start"], len(bars)
     times = [start + 60 * i for i in range(n)]
     index = pd.DatetimeIndex([cl.at(t) for t in times])
     usdc, eth, weth = TokenInfo("usdc", 6), TokenInfo("eth", 18), TokenInfo("weth", 18)
-    a = Actuator()
-    frames, markets = {}, {}
+    pk, form = case.get("price_kind", "decimal"), case.get("form", "frame")
+    inp = {"times": times, "index": index, "tokens": {"usdc": usdc, "eth": eth, "weth": weth}, "frames": {}, "set_price": None}
+    fr = inp["frames"]
     if kind.startswith("probe"):
-        PM = cl.make_market_class()
-        rec = cl.Recorder()
-        rec.actuator = a
-        rec.initialized = True
-        df = pd.DataFrame({"x": times, "v": [b["v"] for b in bars]}, index=index)
-        m = PM(MarketInfo("m0"), df, rec, 0)
-        m.quote_token = usdc
-        m.accrue = True
-        a.broker.add_market(m)
-        markets["m0"], frames["m0"] = m, df
+        fr["m0"] = pd.DataFrame({"x": times, "v": [b["v"] for b in bars]}, index=index)
         if kind == "probe2":
             hrs = [i for i, t in enumerate(times) if t % 3600 == 0]
             if hrs:
-                dfh = pd.DataFrame({"x": [times[i] for i in hrs], "v": [bars[i]["v"] for i in hrs]}, index=index[hrs])
-                mh = PM(MarketInfo("m1"), dfh, rec, 1)
-                mh.quote_token = usdc
-                mh.accrue = True
-                a.broker.add_market(mh)
-                markets["m1"], frames["m1"] = mh, dfh
-        a.broker.set_balance(usdc, 1000)
-        price = pd.DataFrame({"USDC": [Decimal(b["p"]) / 1000 for b in bars]}, index=index)
-        frames["price"] = price
-        a.set_price(price, usdc)
+                fr["m1"] = pd.DataFrame({"x": [times[i] for i in hrs], "v": [bars[i]["v"] for i in hrs]}, index=index[hrs])
+        cols = {"USDC": price_column(pk, [Decimal(b["p"]) / 1000 for b in bars])}
+        if (case.get("aux") or case.get("late")) and form != "series":
+            cols["ETH"] = with_late_feed(price_column(pk if pk != "int" or not case.get("late") else "float", [Decimal(b["S"]) for b in bars]), case.get("late"))
+        price = pd.DataFrame({k: v.values for k, v in cols.items()}, index=index)
+        if form == "series":
+            supplied = price["USDC"].copy()
+            inp["set_price"] = (supplied, usdc)
+        elif form == "tuple":
+            supplied = price
+            inp["set_price"] = ((price, usdc),)
+        else:
+            supplied = price
+            inp["set_price"] = (price, usdc)
+        fr["price"] = supplied
+    elif kind == "deribit":
+        # an option market alone: hourly bars; the price series is taken from the data with market.get_price_from_data() on every run
+        fr["deribit"] = book_rows(case, bars, times, start)
+    elif kind == "gmx":
+        import numpy as np
+        from demeter.gmx.helper import get_price_from_data as gmx_price
+        rows, glp, usdg = [], 4 * 10 ** 26, 4 * 10 ** 26
+        for b in bars:
+            aum = 5 * 10 ** 38 + b["n1"] * 10 ** 16
+            rows.append(dict(glp=Decimal(glp), aum=Decimal(aum), usdg=usdg, interval=np.float64(10 ** 13 + b["in0"]),
+                             glp_price=(Decimal(aum) / Decimal(10 ** 30)) / (Decimal(glp) / Decimal(10 ** 18)),
+                             wavax_price=Decimal(29 * 10 ** 30), weth_price=Decimal(b["S"] * 10 ** 30), weth_usdg=usdg * 3 // 10 + b["in0"] * 10 ** 12,
+                             weth_weight=np.int64(30000), usdc_price=10 ** 30, usdc_usdg=usdg * 7 // 10, usdc_weight=np.int64(70000)))
+        fr["gmx"] = pd.DataFrame({c: pd.Series([r[c] for r in rows], index=index, dtype=object) for c in rows[0]})
+        price = gmx_price(fr["gmx"])
+        price["USDC"] = Decimal(1)
+        if case.get("late"):
+            price["BTC"] = with_late_feed(pd.Series([Decimal(b["p"] * 30) for b in bars], dtype=object), case["late"]).values
+        fr["price"] = price
+        inp["set_price"] = (price,)
+    elif kind == "squeeth":
+        from demeter.uniswap import UniV3Pool, UniLpMarket
+        from demeter import MarketTypeEnum
+        from demeter.squeeth.helper import get_price_from_data as sq_price
+        osqth = TokenInfo("osqth", 18)
+        inp["tokens"]["osqth"] = osqth
+        inp["sq_pool"] = UniV3Pool(weth, osqth, 0.3, weth)
+        nf, rows, prow = Decimal("0.3"), [], []
+        for b in bars:
+            nf -= Decimal(1 + b["v"] % 9) / Decimal(10 ** 7)
+            rows.append(dict(norm_factor=nf, WETH=Decimal(b["S"]), OSQTH=Decimal("0.1") + Decimal(b["p"] - 1000) / Decimal(10 ** 5)))
+            t = 23000 + (b["close"] - 201000) // 4
+            o = 23000 + (b["open"] - 201000) // 4
+            prow.append(dict(netAmount0=Decimal(0), netAmount1=Decimal(0), closeTick=t, openTick=o, lowestTick=min(o, t), highestTick=max(o, t),
+                             inAmount0=Decimal(b["in1"] // 10), inAmount1=Decimal(b["in1"]), currentLiquidity=Decimal(b["liq"] * 100)))
+        fr["squeeth"] = pd.DataFrame(rows, index=index)
+        pdf = pd.DataFrame(prow, index=index)
+        for c in ("netAmount0", "netAmount1", "inAmount0", "inAmount1", "currentLiquidity"):     # as the loader's converters make them
+            pdf[c] = pdf[c].astype(object)
+        UniLpMarket(MarketInfo("uni_sq", MarketTypeEnum.uniswap_v3), inp["sq_pool"]).add_statistic_column(pdf)
+        fr["uni_sq"] = pdf
+        price = sq_price(fr["squeeth"])
+        if case.get("late"):
+            price["BTC"] = with_late_feed(pd.Series([Decimal(b["p"] * 30) for b in bars], dtype=object), case["late"]).values
+        fr["price"] = price
+        inp["set_price"] = (price,)
     else:
         from demeter.uniswap import UniV3Pool, UniLpMarket
         from demeter.uniswap.helper import get_price_from_data
+        from demeter.utils import to_decimal
         pool = UniV3Pool(usdc, eth, 0.05, usdc)
-        um = UniLpMarket(MarketInfo("uni"), pool)
+        inp["pool"] = pool
         # amounts are Decimal objects, as load_uni_v3_data's converters make them (plain ints beyond 2**63 would give the column a
         # data-dependent integer dtype whose resampled sum wraps around: a frame the loader never produces)
         df = pd.DataFrame([dict(netAmount0=Decimal(b["n0"]), netAmount1=Decimal(b["n1"]), closeTick=b["close"], openTick=b["open"], lowestTick=b["lo"],
@@ -121,53 +260,46 @@ def build(case, bars):
                            for b in bars], index=index)
         for c in ("netAmount0", "netAmount1", "inAmount0", "inAmount1", "currentLiquidity"):
             df[c] = df[c].astype(object)
-        um.add_statistic_column(df)
-        um.data = df
+        UniLpMarket(MarketInfo("uni"), pool).add_statistic_column(df)     # the documented preparation step of the caller
+        fr["uni"] = df
         if kind == "uni+deribit":
-            from demeter.deribit import DeribitOptionMarket
-            dm = DeribitOptionMarket(MarketInfo("deribit", MarketTypeEnum.deribit_option), DeribitOptionMarket.ETH)
-            rows = []
-            for i, t in enumerate(times):
-                if t % 3600 == 0:
-                    b = bars[i]
-                    for j, strike in enumerate((1700, 1900)):
-                        rows.append({"time": cl.at(t), "instrument_name": f"ETH-X-{strike}-C", "state": "open", "type": "CALL", "strike_price": strike,
-                                     "expiry_time": cl.at(start + 86400 * 3), "gamma": 0.001, "delta": 0.5, "underlying_price": float(b["S"]),
-                                     "mark_price": b["ask"] * 0.0005,
-                                     "asks": [[(b["ask"] + 1 + j) * 0.0005, b["asz"]], [(b["ask"] + 2 + j) * 0.0005, b["asz"] + 7]],
-                                     "bids": [[max(1, b["ask"] - 1) * 0.0005, b["asz"]]]})
-            ddf = pd.DataFrame(rows).set_index(["time", "instrument_name"]).sort_index() if rows else None
-            if ddf is not None:
-                dm.data = ddf
-                a.broker.add_market(dm)
-                dm.balance = Decimal(5)
-                markets["deribit"], frames["deribit"] = dm, ddf
-        a.broker.add_market(um)
-        markets["uni"], frames["uni"] = um, df
+            book = book_rows(case, bars, times, start)
+            if book is not None:
+                fr["deribit"] = book
         if kind == "uni+aave":
-            import os
-            import common
-            from demeter.aave import AaveV3Market
-            am = AaveV3Market(market_info=MarketInfo("aave", MarketTypeEnum.aave_v3), tokens=[weth, usdc],
-                              risk_parameters_path=os.path.join(common.REPO, "tests", "aave_risk_parameters", "demo.csv"))
             for j, t in enumerate((weth, usdc)):
-                am.set_token_data(t, pd.DataFrame([dict(liquidity_rate=Decimal("0.01"), stable_borrow_rate=Decimal("0.05"),
-                                                        variable_borrow_rate=Decimal("0.03"),
-                                                        liquidity_index=Decimal(b["li"] + 7 * j) / 10 ** 6,
-                                                        variable_borrow_index=Decimal(b["bi"] + 11 * j) / 10 ** 6) for b in bars], index=index))
-            a.broker.add_market(am)
-            markets["aave"], frames["aave"] = am, am.data
-            a.broker.set_balance(weth, Decimal(5))
-        a.broker.set_balance(usdc, Decimal(20000))
-        a.broker.set_balance(eth, Decimal(10))
-        price = get_price_from_data(df, pool)
+                fr["aave:" + t.name] = pd.DataFrame([dict(liquidity_rate=Decimal("0.01"), stable_borrow_rate=Decimal("0.05"),
+                                                          variable_borrow_rate=Decimal("0.03"),
+                                                          liquidity_index=Decimal(b["li"] + 7 * j) / 10 ** 6,
+                                                          variable_borrow_index=Decimal(b["bi"] + 11 * j) / 10 ** 6) for b in bars], index=index)
+        price, quote = get_price_from_data(df, pool)
         if kind == "uni+aave":
-            price[0][weth.name] = price[0][eth.name]
-        frames["price"] = price[0]
-        a.set_price(price)
-    a.interval = {1: "1min", 5: "5min", 60: "1h"}[case["interval"]]
-    obs = {"snaps": [], "did": set()}
-    tokens = {"usdc": usdc, "eth": eth, "weth": weth}
+            price[weth.name] = price[eth.name]
+        if pk != "native":                      # the caller has converted the frame already: every cell a Decimal
+            price = price.map(to_decimal)
+        if case.get("late"):                    # a token the strategy only watches; its feed starts late
+            price["BTC"] = with_late_feed(pd.Series([Decimal(b["p"] * 30) for b in bars], dtype=object), case["late"]).values
+        fr["price"] = price
+        inp["set_price"] = ((price, quote),) if form != "frame" else (price, quote)
+    inp["pristine"] = {k: digest(v) for k, v in fr.items()}
+    return inp
+
+
+# ------------------------------------------------------------------------------------------ the strategy (one object, run again)
+_cls = {}
+
+
+def strategy_class():
+    """an adaptive strategy: every decision is a function of the snapshot handed in and of what the strategy did before.  It owns stateful
+    trigger objects of every class, two installed when the object is made and three — built once — installed by initialize() on every run.
+    What a run sees of the world hangs on `self.env` (the fresh markets of this run), so the same object can be run again."""
+    if "A" in _cls:
+        return _cls["A"]
+    import random
+    from datetime import timedelta
+    from demeter import Strategy
+    from demeter.uniswap import PositionInfo
+    from demeter.strategy.trigger import (PeriodTrigger, PeriodsTrigger, AtTimeTrigger, AtTimesTrigger, TimeRangeTrigger, TimeRange)
 
     def snap_digest(snap):
         parts = [str(snap.timestamp), str(snap.row_id), digest(snap.prices)]
@@ -176,34 +308,197 @@ def build(case, bars):
         return "|".join(parts)
 
     class Adaptive(Strategy):
-        """every decision is a function of the snapshot handed in and of what the strategy did before"""
+        def __init__(self, case):
+            super().__init__()
+            rng = random.Random(case["seed"])
+            step = timedelta(minutes=case["interval"] if case["kind"] != "uni+deribit" or case["interval"] != 1 else rng.choice((1, 7, 60)))
+            t0 = cl.at(case["start"])
+            self.env = None
+            self.triggers.append(PeriodTrigger(step * rng.randint(1, 3), self.on_trig, trigger_immediately=rng.random() < 0.5, tid="p"))
+            self.triggers.append(AtTimeTrigger(t0 + step * rng.randint(0, 2), self.on_trig, tid="t"))
+            self.late = [PeriodsTrigger([step * rng.randint(1, 2), step * rng.randint(2, 4)], self.on_trig, trigger_immediately=rng.random() < 0.5, tid="pp"),
+                         AtTimesTrigger([t0 + step * rng.randint(0, 3) for _ in range(2)], self.on_trig, tid="tt"),
+                         TimeRangeTrigger(TimeRange(t0 + step, t0 + step * rng.randint(2, 4)), self.on_trig, tid="r")]
+
+        def initialize(self):
+            self.triggers.extend(self.late)
+
+        def on_trig(self, snap, tid):
+            obs = self.env["obs"]
+            obs["snaps"].append(("trigger", tid, str(snap.timestamp)))
+            obs["did"].add("trig-" + tid)
+            try:
+                self.env["light"](snap, tid)
+            except Exception as e:  # noqa: BLE001
+                obs["snaps"].append(("refused", type(e).__name__))
 
         def before_bar(self, snap):
-            obs["snaps"].append(("before", snap_digest(snap)))
+            self.env["obs"]["snaps"].append(("before", snap_digest(snap)))
 
         def on_bar(self, snap):
+            obs = self.env["obs"]
             obs["snaps"].append(("on", snap_digest(snap)))
             try:
-                self.act(snap)
+                self.env["act"](snap)
             except Exception as e:  # noqa: BLE001  (refused operations are part of the behaviour, recorded by class)
                 obs["snaps"].append(("refused", type(e).__name__))
 
         def after_bar(self, snap):
-            obs["snaps"].append(("after", snap_digest(snap)))
+            self.env["obs"]["snaps"].append(("after", snap_digest(snap)))
 
-        def act(self, snap):
-            if kind.startswith("probe"):
-                for name, m in markets.items():
-                    st = snap.market_status[m.market_info]
-                    if len(st) and not pd.isna(st["v"]):
-                        v = int(st["v"])
-                        if v % 3 == 0:
-                            m.op(f"t{snap.row_id}", True, Decimal(v))
-                            obs["did"].add("op")
-                        elif v % 7 == 0:
-                            m.op(f"r{snap.row_id}", False)
-                return
-            um = markets["uni"]
+    _cls["A"], _cls["PositionInfo"] = Adaptive, PositionInfo
+    return Adaptive
+
+
+def assemble(case, inp, strategy=None):
+    """fresh Actuator, Broker and market objects over the frames of `inp`; the strategy object is new unless one is handed in"""
+    cl.setup()
+    from demeter import Actuator, MarketInfo, MarketTypeEnum
+    kind = case["kind"]
+    fr, tk = inp["frames"], inp["tokens"]
+    usdc, eth, weth = tk["usdc"], tk["eth"], tk["weth"]
+    a = Actuator()
+    markets, internal = {}, {}
+    obs = {"snaps": [], "did": set()}
+    if kind.startswith("probe"):
+        PM = cl.make_market_class()
+        rec = cl.Recorder()
+        rec.actuator = a
+        rec.initialized = True
+        for i, name in enumerate(("m0", "m1")):
+            if name in fr:
+                m = PM(MarketInfo(name), fr[name], rec, i)
+                m.quote_token = usdc
+                m.accrue = True
+                a.broker.add_market(m)
+                markets[name] = m
+        a.broker.set_balance(usdc, 1000)
+        a.set_price(*inp["set_price"])
+
+        def act(snap):
+            for name, m in markets.items():
+                st = snap.market_status[m.market_info]
+                if len(st) and not pd.isna(st["v"]):
+                    v = int(st["v"])
+                    if v % 3 == 0:
+                        m.op(f"t{snap.row_id}", True, Decimal(v))
+                        obs["did"].add("op")
+                    elif v % 7 == 0:
+                        m.op(f"r{snap.row_id}", False)
+
+        def light(snap, tid):
+            markets["m0"].op(f"{tid}{snap.row_id}", True, Decimal(1))
+    elif kind == "deribit":
+        from demeter.deribit import DeribitOptionMarket
+        dm = DeribitOptionMarket(MarketInfo("deribit", MarketTypeEnum.deribit_option), DeribitOptionMarket.ETH, fr["deribit"])
+        a.broker.add_market(dm)
+        a.broker.set_balance(DeribitOptionMarket.ETH, 10)
+        markets["deribit"] = dm
+        a.set_price(dm.get_price_from_data())             # the usual way: the underlying price of every hour, read from the data
+
+        def act(snap):
+            st = snap.market_status[dm.market_info]
+            if snap.row_id == 0:
+                dm.deposit(5)
+                obs["did"].add("deposit")
+            if len(st):
+                mark = round(float(st.iloc[0]["mark_price"]) * 2000)
+                if mark % 3 == 0:
+                    dm.buy("ETH-X-1700-C", 3)
+                    obs["did"].add("option")
+                elif mark % 3 == 1 and dm.positions:
+                    dm.sell(list(dm.positions.keys())[0], 1)
+                    obs["did"].add("option-sell")
+
+        def light(snap, tid):
+            dm.buy("ETH-Y-1800-C", 1)
+    elif kind == "gmx":
+        from demeter.gmx import GmxMarket
+        gm = GmxMarket(MarketInfo("gmx", MarketTypeEnum.gmx_v1), tokens=[weth, usdc])
+        gm.data = fr["gmx"]
+        a.broker.add_market(gm)
+        markets["gmx"] = gm
+        a.broker.set_balance(weth, Decimal(10))
+        a.broker.set_balance(usdc, Decimal(20000))
+        a.set_price(*inp["set_price"])
+
+        def act(snap):
+            st = snap.market_status[gm.market_info]
+            v = int(st["weth_usdg"]) // 10 ** 12
+            if v % 4 == 0:
+                gm.buy_glp(weth, Decimal("0.5"))
+                obs["did"].add("glp-buy")
+            elif v % 4 == 1 and gm.glp_amount > 0:
+                gm.sell_glp(usdc, gm.glp_amount / 2)
+                obs["did"].add("glp-sell")
+            elif v % 4 == 2:
+                gm.buy_glp(usdc, Decimal(300))
+                obs["did"].add("glp-buy-usdc")
+
+        def light(snap, tid):
+            gm.buy_glp(usdc, Decimal(10))
+    elif kind == "squeeth":
+        from demeter.uniswap import UniLpMarket
+        from demeter.squeeth import SqueethMarket
+        osqth = tk["osqth"]
+        pm = UniLpMarket(MarketInfo("uni_sq", MarketTypeEnum.uniswap_v3), inp["sq_pool"])
+        pm.data = fr["uni_sq"]
+        sm = SqueethMarket(MarketInfo("squeeth", MarketTypeEnum.squeeth), pm)
+        sm.data = fr["squeeth"]
+        a.broker.add_market(pm)
+        a.broker.add_market(sm)
+        markets["uni_sq"], markets["squeeth"] = pm, sm
+        a.broker.set_balance(weth, Decimal(30))
+        a.broker.set_balance(osqth, Decimal(20))
+        a.set_price(*inp["set_price"])
+
+        def act(snap):
+            st = snap.market_status[sm.market_info]
+            v = int(Decimal(st["WETH"]))
+            if v % 5 == 0:
+                sm.buy_squeeth(eth_amount=Decimal(1))
+                obs["did"].add("sq-buy")
+            elif v % 5 == 1 and len(sm.vault) < 2:
+                sm.open_deposit_mint_by_collat_rate(Decimal(3), Decimal("2.5"))
+                obs["did"].add("sq-short")
+            elif v % 5 == 2:
+                p = snap.market_status[pm.market_info].price
+                pm.add_liquidity(p * Decimal("0.9"), p * Decimal("1.1"), Decimal(1), Decimal(1) / p)
+                obs["did"].add("sq-lp")
+
+        def light(snap, tid):
+            sm.buy_squeeth(eth_amount=Decimal("0.1"))
+    else:
+        from demeter.uniswap import UniLpMarket
+        um = UniLpMarket(MarketInfo("uni"), inp["pool"])
+        um.data = fr["uni"]
+        if "deribit" in fr:
+            from demeter.deribit import DeribitOptionMarket
+            dm = DeribitOptionMarket(MarketInfo("deribit", MarketTypeEnum.deribit_option), DeribitOptionMarket.ETH)
+            dm.data = fr["deribit"]
+            a.broker.add_market(dm)
+            dm.balance = Decimal(5)
+            markets["deribit"] = dm
+        a.broker.add_market(um)
+        markets["uni"] = um
+        if kind == "uni+aave":
+            import os
+            import common
+            from demeter.aave import AaveV3Market
+            am = AaveV3Market(market_info=MarketInfo("aave", MarketTypeEnum.aave_v3), tokens=[weth, usdc],
+                              risk_parameters_path=os.path.join(common.REPO, "tests", "aave_risk_parameters", "demo.csv"))
+            for t in (weth, usdc):
+                am.set_token_data(t, fr["aave:" + t.name])
+            a.broker.add_market(am)
+            markets["aave"] = am
+            internal["aave.data"] = am.data          # built by the market from the supplied frames: must not change during a run either
+            a.broker.set_balance(weth, Decimal(5))
+        a.broker.set_balance(usdc, Decimal(20000))
+        a.broker.set_balance(eth, Decimal(10))
+        a.set_price(*inp["set_price"])
+        PositionInfo = _cls.get("PositionInfo") or (strategy_class() and _cls["PositionInfo"])
+
+        def act(snap):
             st = snap.market_status[um.market_info]
             tick = int(st.closeTick)
             p = st.price
@@ -219,41 +514,66 @@ def build(case, bars):
             elif tick % 5 == 3:
                 um.sell(Decimal("0.1"))
                 obs["did"].add("sell")
+            else:
+                # read-only estimates with the price inside the range (they go through base_unit_price_to_real_tick)
+                lo = tick - tick % 10 - 2000
+                est = um.estimate_amount(Decimal(1000), lo, lo + 4000)
+                liq = um.estimate_liquidity(Decimal(500), PositionInfo(lo, lo + 4000))
+                obs["snaps"].append(("estimate", str(est), str(liq)))
+                obs["did"].add("estimate")
             if "aave" in markets:
-                am = markets["aave"]
-                if tick % 4 == 0 and not am.supplies:
-                    am.supply(tokens["weth"], Decimal(2))
+                am_ = markets["aave"]
+                if tick % 4 == 0 and not am_.supplies:
+                    am_.supply(weth, Decimal(2))
                     obs["did"].add("supply")
-                elif tick % 4 == 1 and am.supplies and not am.borrows:
-                    am.borrow(tokens["usdc"], Decimal(300))
+                elif tick % 4 == 1 and am_.supplies and not am_.borrows:
+                    am_.borrow(usdc, Decimal(300))
                     obs["did"].add("borrow")
             if "deribit" in markets:
-                dm = markets["deribit"]
-                if dm.is_open and tick % 2 == 0:
-                    dm.buy("ETH-X-1700-C", 3)
+                dm_ = markets["deribit"]
+                if dm_.is_open and tick % 2 == 0:
+                    dm_.buy("ETH-X-1700-C", 3)
                     obs["did"].add("option")
 
-    a.strategy = Adaptive()
-    return a, frames, markets, obs
+        def light(snap, tid):
+            um.sell(Decimal("0.01"))
+    a.interval = {1: "1min", 5: "5min", 60: "1h"}[case["interval"]]
+    if strategy is None:
+        strategy = strategy_class()(case)
+    strategy.env = {"obs": obs, "act": act, "light": light}
+    a.strategy = strategy
+    return a, markets, internal, obs
 
 
-def run_once(case, bars, frames_given=None):
-    """returns (rows, actions, snaps, frame hashes before, after, error class)"""
-    a, frames, markets, obs = build(case, bars)
-    before = {k: digest(v) for k, v in frames.items()}
+def dec_context():
+    c = decimal.getcontext()
+    return {"prec": c.prec, "rounding": c.rounding, "Emin": c.Emin, "Emax": c.Emax, "capitals": c.capitals, "clamp": c.clamp,
+            "traps": sorted(s.__name__ for s, on in c.traps.items() if on)}
+
+
+def run_once(case, inp, strategy=None):
+    """one run over the frames of `inp`; returns rows, actions, snapshots, digests of every supplied frame after the run, the process-wide
+    Decimal context before and after, the error class, and the strategy object"""
+    a, markets, internal, obs = assemble(case, inp, strategy)
+    assembled = {k: digest(v) for k, v in inp["frames"].items()}
+    internal_before = {k: digest(v) for k, v in internal.items()}
+    ctx_before = dec_context()
     err = None
     try:
         a.run(print_result=False)
     except Exception as e:  # noqa: BLE001
         err = type(e).__name__ + ": " + str(e)[:200] + " @ " + traceback.format_exc().strip().split("\n")[-3][:160]
-    after = {k: digest(v) for k, v in frames.items()}
+    ctx_after = dec_context()
+    after = {k: digest(v) for k, v in inp["frames"].items()}
+    internal_after = {k: digest(v) for k, v in internal.items()}
     rows, actions = [], []
     if err is None:
         df = a.account_status_df
         rows = [[str(ix)] + [str(v) for v in r] for ix, r in zip(df.index, df.itertuples(index=False))]
         actions = [[str(x.timestamp), type(x).__name__, str(x)] for x in a.actions]
-    return {"rows": rows, "actions": actions, "snaps": obs["snaps"], "before": before, "after": after, "err": err, "did": sorted(obs["did"]),
-            "bars": [r[0] for r in rows]}
+    return {"rows": rows, "actions": actions, "snaps": obs["snaps"], "assembled": assembled, "after": after, "err": err, "did": sorted(obs["did"]),
+            "internal": (internal_before, internal_after), "dctx": (ctx_before, ctx_after), "bars": [r[0] for r in rows], "strategy": a.strategy,
+            "n_triggers": len(a.strategy.triggers)}
 
 
 def prefix_of(res, n_bars):
@@ -271,37 +591,91 @@ def prefix_of(res, n_bars):
     return rows, actions, snaps
 
 
+def restore_context(c):
+    d = decimal.getcontext()
+    d.prec, d.rounding, d.Emin, d.Emax, d.capitals, d.clamp = c["prec"], c["rounding"], c["Emin"], c["Emax"], c["capitals"], c["clamp"]
+
+
+def first_diff(x, y):
+    return next((i for i, (p, q) in enumerate(zip(x, y)) if p != q), min(len(x), len(y)))
+
+
 def check_pair(ctx: Ctx, case):
     rep = {k: v for k, v in case.items()}
-    h1, h2 = case["pre"] + case["s1"], case["pre"] + case["s2"]
-    r1, r2, r1b = run_once(case, h1), run_once(case, h2), run_once(case, h1)
     kind, iv = case["kind"], case["interval"]
-    tagbase = f"{kind}:i{iv}"
+    pk, form = case.get("price_kind", "decimal"), case.get("form", "frame")
+    late = case.get("late")
+    lc = "-" if not late else "late<k" if late < case["k"] else "late=k" if late == case["k"] else "late>k"
+    tagbase = f"{kind}:i{iv}:{pk}/{form}:{lc}:{case.get('row_order', '-')}"
+    cl.setup()
+    home = dec_context()
+    i1, i2 = make_inputs(case, case["pre"] + case["s1"]), make_inputs(case, case["pre"] + case["s2"])
+    # first history: a run, then the SAME strategy object (its trigger objects included) on the SAME frames with a fresh account, in the same
+    # process and under whatever process-wide settings the first run left behind; then the second history
+    r1 = run_once(case, i1)
+    r1b = run_once(case, i1, r1["strategy"]) if r1["err"] is None else None
+    left = dec_context()
+    restore_context(home)
+    r2 = run_once(case, i2)
+    restore_context(home)
     for r in (r1, r2):
         if r["err"] is not None:
             ctx.case(f"{tagbase}:error:{r['err'].split(':')[0]}")
-            ctx.violate(f"run:{kind}:{r['err'].split(':')[0]}", f"a run over a well-formed {kind} history raised {r['err']}", rep)
+            ctx.violate(f"run:{kind}:{r['err'].split(':')[0]}", f"a run over a well-formed {kind} history (price cells {pk}, given as {form}) raised {r['err']}", rep)
             return
-    unit = iv if kind != "uni+deribit" else max(iv, 1)
     n_common = case["k"] // iv                                      # complete bars of the common prefix
     if kind == "uni+deribit" and iv == 1:
         n_common = case["k"]
     a1, a2 = prefix_of(r1, n_common), prefix_of(r2, n_common)
     for name, x, y in (("account", a1[0], a2[0]), ("actions", a1[1], a2[1]), ("snapshots", a1[2], a2[2])):
         if x != y:
-            d = next((i for i, (p, q) in enumerate(zip(x, y)) if p != q), min(len(x), len(y)))
+            d = first_diff(x, y)
             ctx.violate(f"lookahead:{kind}:i{iv}:{name}",
                         f"{name} of bar-prefix {n_common} differ between two histories sharing {case['k']} minutes of data (first difference at item {d}: "
                         f"{str(x[d:d + 1])[:160]} vs {str(y[d:d + 1])[:160]})", rep)
-    for r, which in ((r1, "first"), (r2, "second")):
-        for f in r["before"]:
-            if r["before"][f] != r["after"][f]:
-                ctx.violate(f"frame-mutated:{kind}:{f}", f"the supplied {f} frame of a {kind} run changed during the run (interval {iv} min, strategy did {r['did']})", rep)
-    if (r1["rows"], r1["actions"], r1["snaps"]) != (r1b["rows"], r1b["actions"], r1b["snaps"]):
-        ctx.violate(f"rerun-differs:{kind}", "two runs with fresh accounts over identically built inputs differ", rep)
+    # inputs intact: every supplied frame is, after set_price / data assignment and after the run, what it was when the caller built it
+    for r, inp, which in ((r1, i1, "first"), (r2, i2, "second")):
+        for f, h in inp["pristine"].items():
+            fname = f.split(":")[0]
+            if r["assembled"][f] != h:
+                ctx.violate(f"frame-mutated:{kind.split('+')[0] if fname == 'price' else kind}:{fname}:on-handover",
+                            f"the supplied {f} frame (cells {pk}, given as {form}) changed when it was handed to the actuator / market: now "
+                            f"{shape_of(inp['frames'][f])}", rep)
+            elif r["after"][f] != h:
+                ctx.violate(f"frame-mutated:{kind}:{fname}", f"the supplied {f} frame of a {kind} run changed during the run (interval {iv} min, strategy did "
+                            f"{r['did']}): now {shape_of(inp['frames'][f])}", rep)
+        for f in r["internal"][0]:
+            if r["internal"][0][f] != r["internal"][1][f]:
+                ctx.violate(f"frame-mutated:{kind}:{f}", f"{f} changed during the run (interval {iv} min, strategy did {r['did']})", rep)
+    # process-wide settings are an input of the next run: a run leaves the Decimal context as it found it
+    for r, which in ((r1, "first"), (r1b, "repeated"), (r2, "second")):
+        if r is not None and r["dctx"][0] != r["dctx"][1]:
+            ch = {k: (v, r["dctx"][1][k]) for k, v in r["dctx"][0].items() if r["dctx"][1][k] != v}
+            ctx.violate(f"decimal-context-changed:{'+'.join(sorted(ch))}", f"a {kind} run (strategy did {r['did']}) left the process-wide Decimal context changed: {ch}", rep)
+            break
+    # reruns reproduce: same frames, same strategy object, fresh account -> the same result, digit for digit
+    if r1b is not None:
+        if r1b["err"] is not None:
+            ctx.violate(f"rerun-raises:{kind}:{r1b['err'].split(':')[0]}", f"the repeated run raised {r1b['err']}", rep)
+        else:
+            for name, x, y in (("account", r1["rows"], r1b["rows"]), ("actions", r1["actions"], r1b["actions"]), ("snapshots", r1["snaps"], r1b["snaps"])):
+                if x != y:
+                    d = first_diff(x, y)
+                    trig1 = sum(1 for s in r1["snaps"] if s[0] == "trigger")
+                    trig2 = sum(1 for s in r1b["snaps"] if s[0] == "trigger")
+                    cause = "triggers" if trig1 != trig2 else "digits" if len(x) == len(y) else "length"
+                    ctx.violate(f"rerun-differs:{kind}:{cause}",
+                                f"running the same strategy object again on the same frames with a fresh account gives different {name} (trigger calls "
+                                f"{trig1} vs {trig2}; Decimal context after the first run {left}); first difference at item {d}: {str(x[d:d + 1])[:200]} vs "
+                                f"{str(y[d:d + 1])[:200]}", rep)
+                    break
+            if r1["n_triggers"] != r1b["n_triggers"]:
+                ctx.violate(f"rerun-differs:{kind}:trigger-list", f"strategy.triggers holds {r1['n_triggers']} objects after the first run, {r1b['n_triggers']} after the second", rep)
     pc = "all" if not case["s1"] else "short" if n_common <= 2 else "long"
-    ctx.case(f"{tagbase}:{pc}:{'+'.join(sorted(set(r1['did']) | set(r2['did']))) or 'idle'}:ok",
-             {"kind": kind, "interval": iv, "common_bars": n_common, "bars": (len(r1["rows"]), len(r2["rows"])), "did": r1["did"]})
+    did = set(r1["did"]) | set(r2["did"])
+    trig = "+".join(sorted(x for x in did if x.startswith("trig-")))
+    ctx.case(f"{tagbase}:{pc}:{'+'.join(sorted(x for x in did if not x.startswith('trig-'))) or 'idle'}:{'trig' if trig else 'notrig'}:ok",
+             {"kind": kind, "interval": iv, "price": pk, "form": form, "common_bars": n_common, "bars": (len(r1["rows"]), len(r2["rows"])), "did": r1["did"]})
 
 
 # ------------------------------------------------------------------------------------------ the views against the real helpers
@@ -390,12 +764,12 @@ def compare_views(ctx, rep, obs, ans):
 
 def run(ctx: Ctx):
     cl.setup()
-    n = ctx.scale(24, 220)
+    n = ctx.scale(72, 600)
     for i in range(n):
         if ctx.thorough:
             check_pair(ctx, gen_pair(ctx.rng))
         else:   # the hourly order-book market needs hour-long histories: two small pairs in the quick tier
-            check_pair(ctx, gen_pair(ctx.rng, "uni+deribit", small=True) if i % 12 == 5 else gen_pair(ctx.rng, ctx.rng.choice(LIGHT)))
+            check_pair(ctx, gen_pair(ctx.rng, "uni+deribit", small=True) if i % 12 == 5 else gen_pair(ctx.rng, ctx.rng.choice(LIGHT), small=True))
     reqs = []
     for _ in range(ctx.scale(20, 300)):
         check_views(ctx, ctx.rng, reqs)
